@@ -75,6 +75,28 @@ def maxIssuedCids : Nat := 64
 Same arithmetic as `AckFrame.iter` (C10). -/
 def ackValid (f : AckFrame) : Bool := f.iter.isSome
 
+/-- the loop of `AckFrame::validate`, step by step: `smallest.checked_sub(gap)?.checked_sub(2)?.checked_sub(range)?` per
+range (`a.checked_sub(b)` = `if a < b then None else Some(a - b)`).  First component: every value a `checked_sub`
+PRODUCED, in order (the only arithmetic results the function ever holds); second: `Ok(())` reached.  The shape is tied
+to the source by `xlate/gen_ackvalidate.py` (`Gen/AckValidate.lean`). -/
+def validateSteps : Nat → List (Nat × Nat) → List Nat × Bool
+  | _, [] => ([], true)
+  | sm, (g, r) :: rest =>
+    if sm < g then ([], false)
+    else if sm - g < 2 then ([sm - g], false)
+    else if sm - g - 2 < r then ([sm - g, sm - g - 2], false)
+    else ((sm - g) :: (sm - g - 2) :: (sm - g - 2 - r) :: (validateSteps (sm - g - 2 - r) rest).1,
+          (validateSteps (sm - g - 2 - r) rest).2)
+
+/-- `AckFrame::validate`: `largest.checked_sub(first_range)?`, then the loop -/
+def validateTrace (f : AckFrame) : List Nat × Bool :=
+  if f.largest < f.first then ([], false)
+  else ((f.largest - f.first) :: (validateSteps (f.largest - f.first) f.ranges).1,
+        (validateSteps (f.largest - f.first) f.ranges).2)
+
+/-- the one-sum form `first_range + Σ (gap + 2 + range)` (NOT what the code does; seeded change c04-2): its value -/
+def spanSum (f : AckFrame) : Nat := f.ranges.foldl (fun sp gr => sp + gr.1 + 2 + gr.2) f.first
+
 /-- one entry of qcongestion's `sent_packets` as far as `on_ack_rcvd` reads it -/
 structure CcPkt where
   pn : Nat
